@@ -207,11 +207,53 @@ class Body:
                 out.append(t["unwind"])
         return out
 
+    def _const_switch_target(self, b):
+        """target of a switch whose operand is assigned a constant in the same block (e.g. the
+        `if DEBUG_ENABLED` of a debug! macro); None when not constant"""
+        t = self.blocks[b]["t"]
+        if t["k"] != "switch":
+            return None
+        l = op_local(t["o"])
+        if l is None:
+            return None
+        val = None
+        for s in self.blocks[b]["s"]:
+            if s["k"] == "assign" and s["p"]["l"] == l:
+                val = None
+                if not s["p"]["pr"] and s["r"]["k"] == "use":
+                    val = const_int(s["r"]["o"])
+        if val is None:
+            return None
+        for v, x in t["targets"]:
+            if v == val:
+                return x
+        return t["otherwise"]
+
     @property
     def succ(self):
+        """successors with statically constant switches pruned"""
         if self._succ is None:
-            self._succ = [self.succs(b) for b in range(len(self.blocks))]
+            out = []
+            for b in range(len(self.blocks)):
+                ct = self._const_switch_target(b)
+                out.append([ct] if ct is not None else self.succs(b))
+            self._succ = out
         return self._succ
+
+    def back_edges(self):
+        return [(u, h) for u in range(len(self.blocks)) for h in self.succ[u] if self.dominates(h, u)]
+
+    def loop_body(self, h):
+        """blocks of the natural loop(s) with header h"""
+        body = {h}
+        st = [u for u, hh in self.back_edges() if hh == h]
+        while st:
+            b = st.pop()
+            if b in body:
+                continue
+            body.add(b)
+            st.extend(self.pred[b])
+        return body
 
     @property
     def pred(self):
@@ -331,13 +373,25 @@ class Body:
         """local -> list of (block, stmt_index|'t', kind, payload) for whole-local definitions"""
         if self._defs is None:
             d = {}
+            pd = {}
             for bi, si, s in self.stmts():
                 if s["k"] == "assign":
-                    d.setdefault(s["p"]["l"], []).append((bi, si, s))
+                    if not s["p"]["pr"]:
+                        d.setdefault(s["p"]["l"], []).append((bi, si, s))
+                    elif not any(e[0] == "deref" for e in s["p"]["pr"]):
+                        # `_x.f = v`: a partial definition of the local itself
+                        pd.setdefault(s["p"]["l"], []).append((bi, si, s))
+            self._pdefs = pd
             for bi, t in self.calls():
                 d.setdefault(t["dest"]["l"], []).append((bi, "t", t))
             self._defs = d
         return self._defs
+
+    @property
+    def pdefs(self):
+        """local -> partial stores `_l.f = v` (no deref in the place)"""
+        self.defs
+        return self._pdefs
 
     def local_name(self, l):
         return self.locals[l].get("name")
@@ -729,8 +783,21 @@ def origins(body, op_or_local, transparent=transparent_args, max_steps=6000, thr
         ds = body.defs.get(l, [])
         if 1 <= l <= body.argc:
             res.add(("arg", l, names))
+        pds = body.pdefs.get(l, [])
+        for bi, si, d in pds:
+            fn = _names(d["p"])
+            # reading field path `names` (outermost last): the innermost projection comes first
+            if not names or not fn or names[0] == fn[0]:
+                rest = names[len(fn):] if names[:len(fn)] == fn else ()
+                r = d["r"]
+                if r["k"] in ("use", "cast", "repeat"):
+                    push_op(r["o"], rest)
+                elif r["k"] in ("ref", "copyforderef", "rawptr"):
+                    work.append((r["p"]["l"], _names(r["p"]) + rest))
+                else:
+                    res.add(("other", bi, si, rest))
         if not ds:
-            if not (1 <= l <= body.argc):
+            if not (1 <= l <= body.argc) and not pds:
                 res.add(("undef", l, names))
             continue
         for bi, si, d in ds:
@@ -745,9 +812,6 @@ def origins(body, op_or_local, transparent=transparent_args, max_steps=6000, thr
                 else:
                     res.add(("call", c or "?", bi, names))
                 continue
-            if d["p"]["pr"] and not all(e[0] == "deref" for e in d["p"]["pr"]):
-                # partial store into a field of l: contributes
-                pass
             r = d["r"]
             k = r["k"]
             if k in ("use", "cast", "repeat"):
